@@ -48,6 +48,9 @@ type c13Plan struct {
 	Lazy      bool       `json:"lazy"` // the crashing node's operator answers last and its node polls one message at a time
 	Crashes   []c13Crash `json:"crashes"`
 	Stops     []int      `json:"stops"` // clean stop/start of the node after it has processed that many board messages
+	// StartFault = 1 | 2: every start of the node first meets one failing read of the operation pool (1) or of the list
+	// of retired operations (2) while the process comes up; a start that fails is simply repeated
+	StartFault int `json:"start_fault,omitempty"`
 }
 
 type c13Effect struct {
@@ -285,6 +288,8 @@ func c13Execute(p c13Plan, root string) (out c13Outcome) {
 	}
 	install()
 
+	startFaultsMet := 0
+	_ = startFaultsMet
 	restart := func(reason string) error {
 		old := w.Nodes[cn]
 		old.View.Hook = nil
@@ -294,7 +299,25 @@ func c13Execute(p c13Plan, root string) (out c13Outcome) {
 			tornCut()
 			tornCut = nil
 		}
+		if p.StartFault > 0 {
+			key := world.Topic + map[int]string{1: "_operations", 2: "_deleted_operations"}[p.StartFault]
+			met := false
+			world.OpenFault = func(op, k string) error {
+				if op == "get" && k == key && !met {
+					met = true
+					return fmt.Errorf("input/output error (injected fault: read of %s at start-up)", k)
+				}
+				return nil
+			}
+		}
 		nd, err := world.OpenNode(old.Name, old.Dir, old.KeyPair, old.View, false)
+		world.OpenFault = nil
+		if err != nil && p.StartFault > 0 {
+			// the process did not come up; the operator starts it again
+			startFaultsMet++
+			world.Drain()
+			nd, err = world.OpenNode(old.Name, old.Dir, old.KeyPair, old.View, false)
+		}
 		if err != nil {
 			return fmt.Errorf("restart after %s: %w", reason, err)
 		}
@@ -616,6 +639,9 @@ func c13Run(t *testing.T, st *vstat.Stats, p c13Plan) *viol {
 	for _, s := range sites {
 		st.Class("site:" + strings.ReplaceAll(s, world.Topic+"_", ""))
 	}
+	if p.StartFault > 0 {
+		st.Class(fmt.Sprintf("start-up-read-fault:%s", map[int]string{1: "operation-pool", 2: "retired-operations"}[p.StartFault]))
+	}
 	if len(o.Fired) > 0 || len(p.Stops) > 0 {
 		st.NonTrivial(fmt.Sprintf("%d/%d/%d/%v/%v/%v", p.N, p.T, p.Node, p.Lazy, p.Crashes, p.Stops))
 		st.SampleEvery(25, map[string]any{"n": p.N, "t": p.T, "node": p.Node, "lazy_operator": p.Lazy, "crash_fired": o.Fired, "clean_stops_after_messages": p.Stops, "outcome": "all nodes signing-idle, batch reconstructed, public state equals the crash-free run"})
@@ -710,6 +736,7 @@ func TestC13(t *testing.T) {
 		func(rt *rapid.T) c13Plan {
 			n := rapid.SampledFrom([]int{2, 2, 3}).Draw(rt, "n")
 			p := c13Plan{N: n, T: 2, Node: rapid.IntRange(0, n-1).Draw(rt, "node"), Lazy: rapid.Bool().Draw(rt, "lazy")}
+			p.StartFault = rapid.SampledFrom([]int{0, 0, 1, 2}).Draw(rt, "startFault")
 			if rapid.Bool().Draw(rt, "stops") {
 				p.Stops = rapid.SliceOfN(rapid.IntRange(1, 30), 1, 3).Draw(rt, "stopAt")
 			} else {
